@@ -103,7 +103,24 @@ def install_env(m, env):
     m._risk_parameters["borrowingEnabled"] = m._risk_parameters["borrowingEnabled"].astype(bool)
     for c in ("baseLTVasCollateral", "reserveLiquidationThreshold", "reserveLiquidationBonus"):
         m._risk_parameters[c] = m._risk_parameters[c].astype(object)
-    m.set_market_status(AaveMarketStatus(T0 + timedelta(minutes=env.get("minute", 0)), data), price)
+    ts = T0 + timedelta(minutes=env.get("minute", 0))
+    if env.get("refresh"):
+        # the Actuator's second call of a bar (after a write, before update()): the same timestamp and NO row handed over — the market
+        # looks the row up in its own data frame; the price Series is whatever the caller passes (a re-pricing inside the bar)
+        rows = {}
+        for t in toks:
+            st = env["status"][t]
+            rows[(t, "liquidity_rate")] = st["liqRate"]
+            rows[(t, "stable_borrow_rate")] = D(0)
+            rows[(t, "variable_borrow_rate")] = st["varRate"]
+            rows[(t, "liquidity_index")] = st["liqIdx"]
+            rows[(t, "variable_borrow_index")] = st["varIdx"]
+        frame = pd.DataFrame([list(rows.values())], index=[ts], columns=pd.MultiIndex.from_tuples(list(rows.keys())), dtype=object)
+        m._data = frame
+        m.set_market_status(AaveMarketStatus(ts, None), price)
+        m._data = None      # the one-row frame was only the source of that lookup
+    else:
+        m.set_market_status(AaveMarketStatus(ts, data), price)
     m.is_open = bool(env.get("isOpen", True))
 
 
@@ -380,6 +397,31 @@ def spec_request(env, state, view, tok=None, ctx="py"):
     return r
 
 
+def upd_wf(env, st) -> bool:
+    """`Aave.updWF env state` (lean/Demeter/Aave/WF.lean) evaluated on the bar and the implementation's dumped state — the
+    computable hypothesis of `C04_aave_update_completes` / `C13_liquidate_never_raises_debt_exceeds_wf`: every token the bar lists
+    has a price, a risk row and non-zero indices; every held token has positive indices and price and non-negative LTV / LT /
+    bonus; no scaled balance is negative; a supply used as collateral has a positive liquidation threshold.  The driver answers the
+    same predicate (`wf`) for every step; the harness compares the two and requires `update()` not to raise when it holds."""
+    status, price, risk = env["status"], env["price"], env["risk"]
+    for t in env["tokens"]:
+        if t not in price or t not in risk or status[t]["liqIdx"] == 0 or status[t]["varIdx"] == 0:
+            return False
+
+    def row_ok(k):
+        if k not in status or k not in price or k not in risk:
+            return False
+        return (status[k]["liqIdx"] > 0 and status[k]["varIdx"] > 0 and price[k] > 0 and risk[k]["ltv"] >= 0 and risk[k]["lt"] >= 0
+                and risk[k]["bonus"] >= 0)
+    for k, v in st["supplies"]:
+        if Fraction(v["base"]) < 0 or not row_ok(k) or (v["coll"] and not risk[k]["lt"] > 0):
+            return False
+    for k, v in st["borrows"]:
+        if Fraction(v["base"]) < 0 or not row_ok(k):
+            return False
+    return True
+
+
 # ------------------------------------------------------------------------------------------ generators
 def dec_digits(rng, lo: float, hi: float, digits: int) -> D:
     """uniform in [lo, hi] with `digits` decimal places"""
@@ -421,13 +463,19 @@ def next_env(rng, env, shock=None):
     """the next bar: indices never decrease, prices move (a `shock` multiplies the prices of supplied tokens to
     drive the health factor below 1)"""
     e = copy.deepcopy(env)
+    e.pop("refresh", None)
     e["minute"] = env.get("minute", 0) + 1
     # a quiet bar: part of the row repeats the previous bar's (minute data: prices unchanged, or only the borrow side accrues, or nothing moves
     # at all); every part that does move must still show in every view
     still = set()
-    if shock is None and rng.random() < 0.25:
+    one_price = None
+    if shock is None and rng.random() < 0.3:
         still = set(rng.choice((("price",), ("price", "liq"), ("price", "liq", "rates"), ("price", "var", "rates"), ("liq", "var"),
-                                ("price", "liq", "var", "rates"), ("liq",), ("var",))))
+                                ("price", "liq", "var", "rates"), ("liq",), ("var",), ("price", "liq", "var", "rates", "but-one"),
+                                ("price", "liq", "var", "rates", "but-one"))))
+        if "but-one" in still:
+            one_price = rng.choice(e["tokens"])         # the row repeats the previous bar's except for ONE price
+    e["quiet"] = "+".join(sorted(still)) if still else ""
     for t in e["tokens"]:
         st = e["status"][t]
         if "liq" not in still:
@@ -437,7 +485,7 @@ def next_env(rng, env, shock=None):
         if "rates" not in still:
             st["liqRate"] = dec_digits(rng, 0, 0.3, 27)
             st["varRate"] = dec_digits(rng, 0, 0.5, 27)
-        f = dec_digits(rng, 0.9, 1.1, 6) if "price" not in still else D(1)
+        f = dec_digits(rng, 0.9, 1.1, 6) if ("price" not in still or t == one_price) else D(1)
         if shock and t in shock:
             f = shock[t]
         if t not in e["price"]:
@@ -445,6 +493,43 @@ def next_env(rng, env, shock=None):
         else:
             e["price"][t] = (e["price"][t] * f).normalize() if e["price"][t] * f != 0 else e["price"][t]
     return e
+
+
+def refresh_env(rng, env, held, kind=None):
+    """the same bar set again (`set_market_status(MarketStatus(same timestamp, None), price)`, what the Actuator does after a write):
+    the row is the same; the price Series is the same, or carries a changed price for a held token, or for every token"""
+    e = copy.deepcopy(env)
+    e["refresh"] = True
+    e["quiet"] = ""
+    kind = kind or rng.choice(("same", "held", "held", "held", "all"))
+    movers = []
+    if kind == "held" and held:
+        movers = [rng.choice(held)]
+    elif kind == "all":
+        movers = list(e["price"])
+    for t in movers:
+        if t in e["price"] and e["price"][t] != 0:
+            e["price"][t] = (e["price"][t] * dec_digits(rng, 0.5, 1.3, 4)).normalize()
+    e["refresh_kind"] = kind if movers or kind == "same" else "same"
+    return e
+
+
+def features(m, env) -> list:
+    """what the current state / bar exhibits, for the evidence distribution (`feature:*` counters)"""
+    out = []
+    sup = {k.name: v for k, v in m._supplies.items()}
+    bor = {k.name for k in m._borrows}
+    if set(sup) & bor:
+        out.append("same-token-supplied-and-borrowed")
+    if any(v.collateral and t in env["risk"] and env["risk"][t]["ltv"] == 0 for t, v in sup.items()):
+        out.append("zero-ltv-collateral-held")
+    if any(TOKEN_DECIMALS.get(t) == 6 for t in list(sup) + list(bor)):
+        out.append("six-decimal-token-held")
+    if env.get("quiet"):
+        out.append("quiet-bar:" + env["quiet"])
+    if env.get("refresh"):
+        out.append("same-bar-refresh:" + env.get("refresh_kind", "?"))
+    return out
 
 
 def amount_like(rng, ref: D, exactish=False) -> D:
@@ -493,7 +578,8 @@ def gen_op(rng, m, b, env, malformed=0.12):
     if has_coll and len(bor) < 2 and rng.random() < 0.3:
         # steer towards portfolios with debt: borrow a sizeable part of what the collateral allows
         cands = [t for t in toks if env["risk"][t]["canBorrow"]] or toks
-        tok = rng.choice(cands)
+        both = [t for t in cands if token(t) in m._supplies]
+        tok = rng.choice(both) if both and rng.random() < 0.35 else rng.choice(cands)      # the same token supplied and borrowed
         try:
             ref = clone_market(m, False).get_max_borrow_amount(token(tok))
         except Exception:  # noqa: BLE001
